@@ -230,9 +230,38 @@ impl ReassignmentPath {
     }
 }
 
+/// The names mentioned by the target of `a = v`, `a[i] = v`, `a.b.c = v` are needed by the enclosing
+/// function just like the names in the value.
+impl Dependencies for ReassignmentPath {
+    fn dependencies(&self) -> Vec<super::Dependency> {
+        match self {
+            ReassignmentPath::Ident(ident) => ident.net_dependencies(),
+            ReassignmentPath::ReferenceToSelf(_) => vec![],
+            ReassignmentPath::Index { lhs, index } => {
+                let mut result = lhs.net_dependencies();
+                result.append(&mut index.net_dependencies());
+                result
+            }
+            ReassignmentPath::DotLookup { lhs, dot_chain, .. } => {
+                let mut result = lhs.net_dependencies();
+
+                for link in dot_chain.links() {
+                    if let super::dot_lookup::DotLookupOption::FunctionCall { arguments, .. } = link {
+                        result.append(&mut arguments.net_dependencies());
+                    }
+                }
+
+                result
+            }
+        }
+    }
+}
+
 impl Dependencies for Reassignment {
     fn dependencies(&self) -> Vec<super::Dependency> {
-        self.value.net_dependencies()
+        let mut result = self.path.net_dependencies();
+        result.append(&mut self.value.net_dependencies());
+        result
     }
 }
 
